@@ -65,6 +65,7 @@ class ChunkingFileIO(io.FileIO):
         n = len(mv)
         if self._killed:
             return n  # buffered bytes of a killed process never reach the disk
+        fs.fallible("write", self._vpath)
         k = fs.chunk_len(n)
         written = super().write(mv[:k])
         fs.effect("write", self._vpath, written)
@@ -121,6 +122,11 @@ class FS:
         self.fail_reads: dict[str, int] = {}  # rel path -> errno to raise
         self.dead = False  # the simulated writer process has been killed
         self.open_files = weakref.WeakSet()
+        # write-side I/O errors (disk full, EIO): the `at`-th fallible
+        # operation (write chunk, create, rename, mkdir) counted from arming
+        # and the `burst - 1` following ones fail with `errno`
+        self.write_fault: dict | None = None
+        self.fallible_ops = 0
 
     # ------------------------------------------------------------ plumbing
     def inside(self, path) -> bool:
@@ -160,6 +166,22 @@ class FS:
         if r < 0.5:
             return 1
         return self.rng.randrange(1, n + 1)
+
+    def fallible(self, kind: str, path) -> None:
+        wf = self.write_fault
+        if wf is None or self.suspend or _ACTIVE is not self:
+            return
+        self.fallible_ops += 1
+        if wf["at"] <= self.fallible_ops < wf["at"] + wf["burst"]:
+            err = wf["errno"]
+            name = "write_errno_%d" % err
+            self.faults[name] = self.faults.get(name, 0) + 1
+            wf["fired"] = wf.get("fired", 0) + 1
+            wf.setdefault("first", (kind, self.rel(path)))
+            s = S.current()
+            if s is not None:
+                s.log("fs", s.cur.tid, "fail_" + kind, self.rel(path), err)
+            raise OSError(err, os.strerror(err), os.fspath(path))
 
     def kill(self) -> None:
         """Process death: from now on no operation of the (dead) process
@@ -223,6 +245,8 @@ class FS:
         if writing:
             raw_mode = mode.replace("b", "").replace("t", "")
             existed = os.path.exists(path)
+            if not existed:
+                self.fallible("create", path)
             raw = ChunkingFileIO(self, path, raw_mode)
             self.effect("open_w", path, "trunc" if existed and
                         "w" in mode else "new" if not existed else "keep")
@@ -272,6 +296,8 @@ class FS:
 
     def _replace(self, src, dst, **kw):
         self._check_alive(dst)
+        if self.inside(dst):
+            self.fallible("replace", dst)
         r = _REAL["replace"](src, dst, **kw)
         if not kw and self.inside(dst):
             self.effect("replace", dst, self.rel(src))
@@ -279,6 +305,8 @@ class FS:
 
     def _rename(self, src, dst, **kw):
         self._check_alive(dst)
+        if self.inside(dst):
+            self.fallible("replace", dst)
         r = _REAL["rename"](src, dst, **kw)
         if not kw and self.inside(dst):
             self.effect("replace", dst, self.rel(src))
@@ -286,6 +314,8 @@ class FS:
 
     def _mkdir(self, path, *a, **kw):
         self._check_alive(path)
+        if self.inside(path) and not os.path.isdir(path):
+            self.fallible("mkdir", path)
         r = _REAL["mkdir"](path, *a, **kw)
         if "dir_fd" not in kw and self.inside(path):
             self.effect("mkdir", path, 0)
